@@ -12,7 +12,8 @@ LEVEL_TEXT = ("bounded-exhaustive: all trigger sets up to n, all behaviours and 
 LEVEL_NOTE = "the reactor is never run (no I/O, no threads); the logging failure handler and Deferred/DeferredList are trusted"
 TECHNIQUE = "stateless exhaustive enumeration (mc.choice), removals deviation-bounded, lock-step list reference"
 RULE = ("for n <= N triggers: every phase assignment (before/during/after)^n x every behaviour per trigger {return None, raise, "
-        "return unfired Deferred, and for before-triggers also return an already-fired / already-failed Deferred} x every "
+        "return unfired Deferred, and for before-triggers also return an already-fired / already-failed Deferred, an unfired "
+        "DeferredList([d]), an unfired instance of a user subclass of Deferred} x every "
         "order and outcome (ok/failed) of firing the Deferreds returned by before-triggers [all enumerated completely]; "
         "combined with <= B removal/duplication decisions: remove trigger j before firing, from inside any running trigger "
         "(later, earlier-and-already-run before-trigger, or itself for before-triggers), or between two Deferred firings; "
@@ -35,7 +36,7 @@ MIN = {"quick": {"evaluations": 480000, "nontrivial": 480000, "outcomes": 17},
        "thorough": {"evaluations": 11800000, "nontrivial": 11800000, "outcomes": 18}}
 
 PHASES = ("before", "during", "after")
-KINDS = {"before": ("none", "raise", "defer", "fired", "failed"), "during": ("none", "raise", "defer"),
+KINDS = {"before": ("none", "raise", "defer", "fired", "failed", "dlist", "subdefer"), "during": ("none", "raise", "defer"),
          "after": ("none", "raise", "defer")}
 TIERS = {"quick": {1: 2, 2: 2, 3: 2, 4: 1}, "thorough": {1: 3, 2: 3, 3: 3, 4: 2, 5: 1}}
 DUP_SIG = "SystemEvent:removal-conflates-identical-duplicate-registrations"
@@ -76,6 +77,20 @@ def reactor_class():
                 pass
         _R = R
     return _R
+
+
+_SUB = None
+
+
+def sub_deferred_class():
+    global _SUB
+    if _SUB is None:
+        from twisted.internet.defer import Deferred
+
+        class UserDeferred(Deferred):
+            pass
+        _SUB = UserDeferred
+    return _SUB
 
 
 class Reg:
@@ -183,6 +198,13 @@ class H:
             self.consume = getattr(self, "consume", [])
             self.consume.append(d)
             return d
+        if r.kind in ("dlist", "subdefer"):
+            # Deferred *subclass* instances: an unfired DeferredList([d]) aggregate (what gatherResults / MultiService.stopService
+            # hand back) or a user subclass; the harness later fires the underlying Deferred
+            d = defer.Deferred() if r.kind == "dlist" else sub_deferred_class()()
+            self.outstanding.append(d)
+            self.flags.add("before-returned-" + r.kind)
+            return defer.DeferredList([d]) if r.kind == "dlist" else d
         d = defer.Deferred()
         if r.phase == "before":
             self.outstanding.append(d)
